@@ -59,6 +59,13 @@ def tasks(tier):
                         "entry": pat[0], "bound": 1, "entries": list(pat),
                         "ncalls": 3, "ticks": sorted({0, 1, W}),
                         "weight": 9 if mx == 2 else 4})
+    # result-classified failures through every call style
+    for mx, pat in itertools.product([1, 2], [("AsyncRetry.call", "Retry.execute"), ("Retry.call", "AsyncRetry.execute"),
+                                              ("AsyncPolicy.call", "Policy.execute")]):
+        cfg = dict(M=3, alphabet=["r:T", "ok"], max_unknown=None, budget={"max": mx, "window": 8},
+                   strat_menu=[1])
+        out.append({"family": "budget-shared", "cfg": cfg, "entry": pat[0], "bound": 0,
+                    "entries": list(pat), "ncalls": 2, "ticks": [0], "weight": 4})
     # an abort request arrives while a granted retry is running: the token stays spent
     for mx, pat in itertools.product([1, 2], [("Retry.execute", "AsyncRetry.call"),
                                               ("AsyncRetry.execute", "Policy.call")]):
@@ -81,7 +88,14 @@ def monitor_shared(w, cfg):
     specs = {inc: BudgetSpec(b["max"], W, inc) for inc in (False, True)}
     pending_retry = 0
     last_consume_t = 0.0
+    refused = False     # the budget refused this call's retry: nothing more may be attempted
     for r in w.trace:
+        if r[0] == "call":
+            refused = False
+        elif r[0] in ("op", "sleep") and refused:
+            v.append(("c10.retry-after-refusal",
+                      f"{r[0]} {r[1:3]} performed after the budget had refused the retry"))
+            refused = False
         if r[0] in ("consume", "consume_x"):
             t = r[2]
             for inc, s in list(specs.items()):
@@ -102,6 +116,7 @@ def monitor_shared(w, cfg):
                 pending_retry += 1
             else:
                 pending_retry = -1000
+                refused = True
         elif r[0] == "metric" and r[1] == "retry":
             retries.append(last_consume_t)
             pending_retry -= 1
